@@ -966,12 +966,13 @@ class _FunctionInformationCollector(ast.RopeNodeVisitor):
 
     @contextmanager
     def _handle_conditional_context(self, node):
+        previous = self.conditional
         if self.start <= node.lineno <= self.end:
             self.conditional = True
         try:
             yield
         finally:
-            self.conditional = False
+            self.conditional = previous
 
     @contextmanager
     def _handle_loop_context(self, node):
